@@ -11,5 +11,5 @@ CONSTANTS
   TopUps = {0, 5}
 INIT InitObs
 NEXT Stutter
-INVARIANTS ObsLoadOK NoRepeat ObsNoRepeatAddr ObsAllAnswered
+INVARIANTS ObsLoadOK NoRepeat ObsNoRepeatAddr
 CHECK_DEADLOCK FALSE
